@@ -463,6 +463,24 @@ theorem jsonLike_covToDict (f : UInt64 → UInt64) (m : Meta) : ∀ c : Cov PyVa
     simp [covToDict, pairState, PyVal.jsonLike, PyVal.jsonLikeK, jsonLike_metaDict,
       jsonLike_ms f _ (WF_adToPy f ad), ih h.1, jsonLike_ms f c h.2]
 
+/-! Class lookup of the nine classes `to_dict` writes. -/
+theorem covClass_add (mo : String) : covClass "Add" mo = .ok (.pair .add) := by simp [covClass]
+theorem covClass_mul (mo : String) : covClass "Mul" mo = .ok (.pair .mul) := by simp [covClass]
+theorem covClass_pow (mo : String) : covClass "Pow" mo = .ok (.pair .pow) := by simp [covClass]
+theorem covClass_matern32 : covClass "Matern32" "mellon.cov" = .ok (.leaf .matern32) := by
+  simp [covClass, baseCovNonKernelGlobals]
+theorem covClass_matern52 : covClass "Matern52" "mellon.cov" = .ok (.leaf .matern52) := by
+  simp [covClass, baseCovNonKernelGlobals]
+theorem covClass_expquad : covClass "ExpQuad" "mellon.cov" = .ok (.leaf .expquad) := by
+  simp [covClass, baseCovNonKernelGlobals]
+theorem covClass_exponential : covClass "Exponential" "mellon.cov" = .ok (.leaf .exponential) := by
+  simp [covClass, baseCovNonKernelGlobals]
+theorem covClass_ratquad : covClass "RatQuad" "mellon.cov" = .ok (.leaf .ratquad) := by
+  simp [covClass, baseCovNonKernelGlobals]
+theorem covClass_linear : covClass "Linear" "mellon.cov" = .ok (.leaf .linear) := by
+  simp [covClass, baseCovNonKernelGlobals]
+
+set_option linter.unusedSimpArgs false in
 /-- `from_dict` undoes `to_dict`, whatever the transport does to float bits. -/
 theorem covFromDict_covToDict (f : UInt64 → UInt64) (m : Meta) : ∀ c : Cov PyVal, c.paramsWF f = true →
     covFromDict (PyVal.normF f (covToDict m c)) = .ok (c.mapP (PyVal.normF f)) := by
@@ -472,25 +490,29 @@ theorem covFromDict_covToDict (f : UInt64 → UInt64) (m : Meta) : ∀ c : Cov P
     intro h
     simp only [Cov.paramsWF] at h
     simp [covToDict, leafState, leafData, PyVal.normF, PyVal.normFK, covFromDict, isKernelState_dict_type,
-      alookup, stateClass, metaDict, covClass, leafFromState, deserializeK, deser_ms_ad, deser_ms f ls h,
+      alookup, stateClass, strField, refuseMalformed, metaDict, covClass_add, covClass_mul, covClass_pow, covClass_matern32, covClass_matern52,
+      covClass_expquad, covClass_exponential, covClass_ratquad, covClass_linear, leafFromState, deserializeK, deser_ms_ad, deser_ms f ls h,
       pyToAd_adToPy, Cov.mapP]
   | ratquad a ls ad =>
     intro h
     simp only [Cov.paramsWF, Bool.and_eq_true] at h
     simp [covToDict, leafState, leafData, PyVal.normF, PyVal.normFK, covFromDict, isKernelState_dict_type,
-      alookup, stateClass, metaDict, covClass, leafFromState, deserializeK, deser_ms_ad, deser_ms f ls h.2,
+      alookup, stateClass, strField, refuseMalformed, metaDict, covClass_add, covClass_mul, covClass_pow, covClass_matern32, covClass_matern52,
+      covClass_expquad, covClass_exponential, covClass_ratquad, covClass_linear, leafFromState, deserializeK, deser_ms_ad, deser_ms f ls h.2,
       deser_ms f a h.1, pyToAd_adToPy, Cov.mapP]
   | add l r ad ihl ihr | mul l r ad ihl ihr =>
     intro h
     simp only [Cov.paramsWF, Bool.and_eq_true] at h
     simp [covToDict, pairState, PyVal.normF, PyVal.normFK, covFromDict, isKernelState_dict_type,
-      alookup, stateClass, metaDict, covClass, covFromKey, covRightFromKey, isKernelState_covToDict,
+      alookup, stateClass, strField, refuseMalformed, metaDict, covClass_add, covClass_mul, covClass_pow, covClass_matern32, covClass_matern52,
+      covClass_expquad, covClass_exponential, covClass_ratquad, covClass_linear, covFromKey, covRightFromKey, isKernelState_covToDict,
       ihl h.1, ihr h.2, deserAd, deser_ms_ad, pyToAd_adToPy, buildPair, Cov.mapP, Except.map]
   | addC l c ad ih | mulC l c ad ih | pow l c ad ih =>
     intro h
     simp only [Cov.paramsWF, Bool.and_eq_true] at h
     simp [covToDict, pairState, PyVal.normF, PyVal.normFK, covFromDict, isKernelState_dict_type,
-      alookup, stateClass, metaDict, covClass, covFromKey, covRightFromKey, isKernelState_ms,
+      alookup, stateClass, strField, refuseMalformed, metaDict, covClass_add, covClass_mul, covClass_pow, covClass_matern32, covClass_matern52,
+      covClass_expquad, covClass_exponential, covClass_ratquad, covClass_linear, covFromKey, covRightFromKey, isKernelState_ms,
       ih h.1, deser_ms f c h.2, deserAd, deser_ms_ad, pyToAd_adToPy, buildPair, Cov.mapP, Except.map]
 
 /-! ### further facts used by the property theorems -/
@@ -591,12 +613,21 @@ theorem paramsWF_covOfBits (f : UInt64 → UInt64) (c : Cov UInt64) : (covOfBits
 theorem covFromKey_eq (key : String) : ∀ kvs : List (String × PyVal),
     covFromKey key kvs = match alookup key kvs with
       | some v => covFromDict v
-      | Option.none => .error (.internal "KeyError")
+      | Option.none => .error (.valueError "missing-field")
   | [] => rfl
   | (k, v) :: rest => by
     by_cases h : k = key
     · simp [covFromKey, alookup, h]
     · simp [covFromKey, alookup, h, covFromKey_eq key rest]
+
+theorem covRightFromKey_none : ∀ kvs : List (String × PyVal), alookup "right_data" kvs = none →
+    covRightFromKey kvs = .error (.valueError "missing-field")
+  | [], _ => rfl
+  | (k, v) :: rest, h => by
+    by_cases hk : k = "right_data"
+    · simp [alookup, hk] at h
+    · simp only [alookup, hk, if_false] at h
+      simp [covRightFromKey, hk, covRightFromKey_none rest h]
 
 theorem intsOfPy_normFL (f : UInt64 → UInt64) : ∀ xs : List PyVal, intsOfPy (PyVal.normFL f xs) = intsOfPy xs
   | [] => rfl
